@@ -279,10 +279,19 @@ Definition field_edges (ns : list name) (c : name) (x : fdecl) : list edge :=
   | None => []
   end.
 
-Lemma field_edge_ok p ns c x : wf_ann (f_ann x) = true -> leaf_ok p (f_ann x) = true -> locals_in ns (f_ann x) = true ->
-  field_edge p ns c x = Ok (field_edges ns c x).
+Lemma resolve_ext p ns sh t : (forall n, sh n = n) -> resolve p ns sh t = resolve p ns (fun n => n) t.
 Proof.
-  destruct x as [n pr t d df]. unfold field_edge, field_edges, target, locals_in. cbn [f_ann f_name f_default f_factory].
+  intro H. induction t; simpl; try reflexivity; try (rewrite IHt; reflexivity).
+  - now rewrite H.
+  - rewrite IHt1, IHt2. reflexivity.
+  - now rewrite H.
+  - rewrite IHt1, IHt2. reflexivity.
+Qed.
+
+Lemma field_edge_ok p ns c x : wf_ann (f_ann x) = true -> leaf_ok p (f_ann x) = true -> locals_in ns (f_ann x) = true ->
+  field_edge_with p ns (fun n => n) c x = Ok (field_edges ns c x).
+Proof.
+  destruct x as [n pr t d df]. unfold field_edge_with, field_edges, target, locals_in. cbn [f_ann f_name f_default f_factory].
   intros W L Hl.
   destruct t as [b|c'|e|a|k a|a|n'|a|a|k v|o| |n'|pp u1 u2]; try discriminate W;
     try (destruct b; try discriminate W; reflexivity);
@@ -296,7 +305,7 @@ Proof.
 Qed.
 
 Lemma resolve_ok p ns t : wf_ann t = true -> leaf_ok p t = true -> locals_in ns t = true ->
-  exists rt, resolve p ns t = Ok rt.
+  exists rt, resolve p ns (fun n => n) t = Ok rt.
 Proof.
   unfold locals_in. intros W L Hl.
   destruct t as [b|c'|e|a|k a|a|n'|a|a|k v|o| |n'|pp u1 u2]; try discriminate W;
@@ -414,18 +423,34 @@ Section Build.
     rewrite forallb_forall in H0. auto.
   Qed.
 
+  (* no two classes of a well-formed program share a __name__: the retry's namespace shadows nothing *)
+  Lemma sh_id c n : sh_of p cs c n = n.
+  Proof.
+    unfold sh_of. destruct (needs_retry p c); auto. unfold shadow.
+    assert (Hp : forall m, pyname_of p m = m).
+    { intro m. unfold pyname_of. destruct (find_decl p m) as [d|] eqn:E; auto.
+      apply find_decl_In in E as [E1 E2]; auto.
+      pose proof Hwf as H. unfold wf_prog in H. apply andb_true_iff in H as [_ H]. rewrite forallb_forall in H.
+      specialize (H d E1). apply Pos.eqb_eq in H. congruence. }
+    assert (G : forall l, (forall m, In m l -> m = n) -> match rev l with m :: _ => m | [] => n end = n).
+    { intros l Hl. destruct (rev l) as [|m r] eqn:E; auto. apply Hl. apply in_rev. rewrite E. simpl; auto. }
+    apply G. intros m Hm. apply filter_In in Hm as [_ Hm]. rewrite !Hp in Hm. now apply Pos.eqb_eq in Hm.
+  Qed.
+
   Lemma assoc_edges_ok : assoc_edges p cs = Ok assoc_list.
   Proof.
-    unfold assoc_edges, assoc_list. apply mconcat_ok. intros c Hc. unfold class_edges.
-    assert (G : mconcat (field_edge p cs c) (public_fields (tab p) c)
+    unfold assoc_edges, assoc_list. apply mconcat_ok. intros c Hc. unfold class_edges, field_edge.
+    assert (G : mconcat (fun f => field_edge_with p cs (sh_of p cs c) c f) (public_fields (tab p) c)
                 = Ok (flat_map (field_edges cs c) (public_fields (tab p) c))).
     { apply mconcat_ok. intros x Hx.
       apply public_fields_In in Hx as [_ [a [_ Hx]]]; auto.
-      apply declares_all in Hx. destruct (field_facts x Hx) as [H1 [H2 H3]]. now apply field_edge_ok. }
+      apply declares_all in Hx. destruct (field_facts x Hx) as [H1 [H2 H3]].
+      unfold field_edge_with. rewrite (resolve_ext p cs (sh_of p cs c)) by apply sh_id. now apply field_edge_ok. }
     destruct (public_fields (tab p) c) eqn:E; [reflexivity|].
     rewrite mcheck_ok; [exact G|].
     intros x Hx. apply (tab_correct c (Hcs_decl c Hc) x) in Hx as [a [_ Hx]].
-    apply declares_all in Hx. destruct (field_facts x Hx) as [H1 [H2 H3]]. now apply resolve_ok.
+    apply declares_all in Hx. destruct (field_facts x Hx) as [H1 [H2 H3]].
+    rewrite (resolve_ext p cs (sh_of p cs c)) by apply sh_id. now apply resolve_ok.
   Qed.
 
   Lemma build_eq : build p cs = Ok (mk_graph cs (inh_edges p cs ++ assoc_list)).
@@ -543,9 +568,9 @@ Qed.
    C1 (module 1; cannot see C2, C3): a1 : Optional["C2"], a2 : List["C3"];  C2(C1);  C3.   Diagram [C1; C2]:
    the retry as it was gave up with NameError; the program is in the fragment now and construction succeeds. *)
 Definition two_unresolved_prog : prog :=
-  [ Build_decl 2 DDataclass [] [Build_fdecl 5 false (Optional (Fwd 3)) true false; Build_fdecl 6 false (Cont KList (Fwd 4)) true false] [3; 4];
-    Build_decl 3 DDataclass [2] [Build_fdecl 7 false (Builtin BInt) true false] [];
-    Build_decl 4 DDataclass [] [Build_fdecl 8 false (Builtin BInt) true false] [] ]%positive.
+  [ Build_decl 2 DDataclass [] [Build_fdecl 5 false (Optional (Fwd 3)) true false; Build_fdecl 6 false (Cont KList (Fwd 4)) true false] [3; 4] 2;
+    Build_decl 3 DDataclass [2] [Build_fdecl 7 false (Builtin BInt) true false] [] 3;
+    Build_decl 4 DDataclass [] [Build_fdecl 8 false (Builtin BInt) true false] [] 4 ]%positive.
 Lemma two_unresolved_regression :
   old_retry two_unresolved_prog [2; 3]%positive 2%positive = Raise NameError
   /\ wf_prog two_unresolved_prog = true /\ wf_classes two_unresolved_prog [2; 3]%positive = true
@@ -555,12 +580,28 @@ Proof. repeat split; vm_compute; reflexivity. Qed.
 
 (* a program of the fragment, for non-vacuity: C1 { a1 : Optional["C2"] }, C2 { a2 : int }, C3(C1) {}, E1 enum *)
 Definition example_prog : prog :=
-  [ Build_decl 2 DDataclass [] [Build_fdecl 6 false (Optional (Fwd 3)) true false] [];
-    Build_decl 3 DDataclass [] [Build_fdecl 7 false (Builtin BInt) true false; Build_fdecl 8 false (Cont KList (Fwd 5)) false true] [];
-    Build_decl 4 DDataclass [2] [] [];
-    Build_decl 5 DEnum [] [] [] ]%positive.
+  [ Build_decl 2 DDataclass [] [Build_fdecl 6 false (Optional (Fwd 3)) true false] [] 2;
+    Build_decl 3 DDataclass [] [Build_fdecl 7 false (Builtin BInt) true false; Build_fdecl 8 false (Cont KList (Fwd 5)) false true] [] 3;
+    Build_decl 4 DDataclass [2] [] [] 4;
+    Build_decl 5 DEnum [] [] [] 5 ]%positive.
 Lemma example_in_fragment :
   wf_prog example_prog = true /\ wf_classes example_prog [4; 3; 2]%positive = true /\
   build example_prog [4; 3; 2]%positive
   = Ok (mk_graph [4; 3; 2] [mk_edge EInh 2 4 1; mk_edge EAssoc 4 3 6; mk_edge EAssoc 2 3 6])%positive.
+Proof. repeat split; vm_compute; reflexivity. Qed.
+
+(* outside the fragment (open finding C17-d): namesakes and the retry.  Module 1: A { p : Optional["X"]; q : Optional["Z"] } and
+   X, where Z is imported under TYPE_CHECKING only; module 2: another class X (4, __name__ of 3) and Z.  The retry's
+   namespace {__name__: class} of the whole diagram shadows module 1's own X by the namesake listed last. *)
+Definition namesake_prog : prog :=
+  [ Build_decl 3 DDataclass [] [Build_fdecl 8 false (Builtin BInt) true false] [] 3;
+    Build_decl 2 DDataclass [] [Build_fdecl 6 false (Optional (Fwd 3)) true false; Build_fdecl 7 false (Optional (Fwd 5)) true false] [5] 2;
+    Build_decl 4 DDataclass [] [Build_fdecl 9 false (Builtin BInt) true false] [] 3;
+    Build_decl 5 DDataclass [] [Build_fdecl 10 false (Builtin BInt) true false] [] 5 ]%positive.
+Lemma namesake_refuted :
+  build namesake_prog [2; 3; 4; 5]%positive
+    = Ok (mk_graph [2; 3; 4; 5] [mk_edge EAssoc 2 4 6; mk_edge EAssoc 2 5 7])%positive
+  /\ g_edges (spec_graph namesake_prog [2; 3; 4; 5]%positive) = [mk_edge EAssoc 2 3 6; mk_edge EAssoc 2 5 7]%positive
+  /\ build namesake_prog [2; 4; 3; 5]%positive
+    = Ok (mk_graph [2; 4; 3; 5] [mk_edge EAssoc 2 3 6; mk_edge EAssoc 2 5 7])%positive.
 Proof. repeat split; vm_compute; reflexivity. Qed.
